@@ -863,6 +863,36 @@ func (r *rkRun) checkReads(props []string, cls, ctx string, b *Bitmap, want []ui
 			}
 		}
 	})
+	g("ReSeek", func() {
+		// one iterator, repositioned again and again (forwards and backwards, out of
+		// the middle of whatever it was reading): after each Seek the following
+		// Next calls yield the members >= the seek value in order
+		it := b.Iterator()
+		order := append([]uint64{}, pr...)
+		for i := len(pr) - 1; i >= 0; i-- {
+			order = append(order, pr[i])
+		}
+		for k, v := range order {
+			it.Seek(v)
+			i := rkLB(want, v)
+			steps := 1 + k%3
+			for n := 0; n < steps; n++ {
+				got, eof := it.Next()
+				if i+n >= len(want) {
+					r.cmp(eof, P, sig("ReSeek"), func() string {
+						return fmt.Sprintf("%s: reused iterator, Seek(%d) then Next #%d = (%d,eof=%v), model: end of set", ctx, v, n+1, got, eof)
+					})
+					break
+				}
+				w := want[i+n]
+				if !r.cmp(!eof && got == w, P, sig("ReSeek"), func() string {
+					return fmt.Sprintf("%s: reused iterator, Seek(%d) then Next #%d = (%d,eof=%v), model %d", ctx, v, n+1, got, eof, w)
+				}) {
+					break
+				}
+			}
+		}
+	})
 	g("CountRange", func() {
 		for i, a := range pr {
 			for j, e := range pr {
